@@ -52,6 +52,9 @@ func runWith(src string, path int, disasm, trace, stats bool) (r c19Run) {
 		if err == nil {
 			bl, bi, err = bcl.Execute(p, opts...)
 		}
+	case 3:
+		n := len(src)
+		bl, bi, err = bcl.InterpretFile(impl.NewScriptFile(src, impl.Chunks(n/2)), opts...)
 	case 2:
 		var p *bcl.Prog
 		p, err = bcl.Parse([]byte(src), "input", bcl.OptOutput(&bytes.Buffer{}), bcl.OptLogger(&log))
@@ -116,7 +119,7 @@ func c19Exec(cs fw.Case) *fw.Fail {
 			}
 		}
 	}
-	for path := 0; path < 3; path++ {
+	for path := 0; path < 4; path++ {
 		base := runWith(src, path, false, false, false)
 		if base.panicked != "" {
 			fw.TallyOutcome("base-run-panics") // C06's business
@@ -219,7 +222,7 @@ func init() {
 	fw.Register(&fw.Check{
 		ID:    "C19",
 		Level: "model_checking",
-		Rule: "for every program of the core corpus K (accepted, rejected, failing at run time), the statement sequences of C04 and (thorough) C02/C03 up to their quick bounds: all 8 combinations of the disassembly/trace/statistics options x 3 API paths (Interpret; Parse+Execute; Parse, Dump, LoadProg+Execute). " +
+		Rule: "for every program of the core corpus K (accepted, rejected, failing at run time), the statement sequences of C04 and (thorough) C02/C03 up to their quick bounds: all 8 combinations of the disassembly/trace/statistics options x 4 API paths (Interpret; Parse+Execute; Parse, Dump, LoadProg+Execute; InterpretFile in two chunks). " +
 			"Oracle: blocks, binding, error text and diagnostics identical to the option-free run; no panic; after deleting the lines a strict grammar recognises as header / disassembly / stack / statistics lines the output equals the option-free output; " +
 			"the disassembly lists exactly the independent decoder's instruction starts once each in order; the trace's instruction offsets equal the reference VM's executed pc sequence, one stack line each, and their number equals xstats.opsRead.",
 		Subs:           []*fw.Sub{subC19},
